@@ -20,7 +20,7 @@ TIMERS = [(True, 1, 0), (True, 2, 0), (True, 3, 0), (True, 5, 0), (True, 0, 2), 
 IMRS = [0x00, 0x81, 0x83]
 
 
-def monitor(impl: str, name: str, cfg, obs: List[Dict[str, Any]], vb: VB, wit) -> List[Tuple]:
+def monitor(impl: str, name: str, cfg, obs: List[Dict[str, Any]], vb: VB, wit, strict_cal=None) -> List[Tuple]:
     """Alignment-agnostic rules. The Python machine ticks its timers once at the start of a step with the counter value
     before the step (and once per simulated WAIT cycle), the Rust machine after the instruction for every cycle it
     consumed; neither ticks while an interrupt handler runs. So with c0/c1 the counter before/after a step and p the
@@ -28,6 +28,20 @@ def monitor(impl: str, name: str, cfg, obs: List[Dict[str, Any]], vb: VB, wit) -
     en, mti, sti = cfg["timer"]
     fires = []
     prev = None
+    # Self-consistency of the tick alignment: if, while instructions execute, every step leaves each target strictly
+    # after the counter (the machine ticks up to and including the new counter value), idle HALT cycles must do the same;
+    # otherwise a boundary fires one cycle later while halted than while running.
+    def judged(a, b):
+        return _judged(a, b)
+    strict = strict_cal or {"next_mti": False, "next_sti": False}
+    for k in range(1, len(obs)):
+        a, b = obs[k - 1], obs[k]
+        if judged(a, b) and a["power"] == "halted" and b["power"] == "halted":
+            for tname, key in (("mti", "next_mti"), ("sti", "next_sti")):
+                if strict[key] and b[key] <= b["cycles"]:
+                    vb.add(f"C13/machine/{impl}/halted-ticks-lag-behind-running-ticks/{tname}", f"{impl} {name}: step {k} (halted): counter "
+                           f"{a['cycles']}->{b['cycles']} but the next {tname} target is {b[key]}; while running this machine always leaves "
+                           f"the target beyond the counter", wit)
     for k, o in enumerate(obs):
         c1 = o["cycles"]
         isr = o["imem"][0xFC]
@@ -67,11 +81,29 @@ def monitor(impl: str, name: str, cfg, obs: List[Dict[str, Any]], vb: VB, wit) -
     return fires
 
 
+def _judged(a, b) -> bool:
+    return not (a["in_interrupt"] or b["in_interrupt"] or a["power"] == "off" or b["power"] == "off" or a["cycles"] == b["cycles"])
+
+
+def calibrate(obs: List[Dict[str, Any]], cfg) -> Dict[str, bool]:
+    """Tick alignment of one machine, measured on a plain NOP loop with the same timers: strict = after every executed
+    instruction each target lies beyond the counter although boundaries were crossed (the machine ticks up to the new
+    counter value)."""
+    en, mti, sti = cfg["timer"]
+    out = {}
+    for key, per in (("next_mti", mti), ("next_sti", sti)):
+        steps = [(a, b) for a, b in zip(obs, obs[1:]) if _judged(a, b) and a["power"] == "running" and b["power"] == "running"]
+        crossed = sum(1 for a, b in steps if b[key] != a[key])
+        out[key] = bool(en and per > 0 and crossed >= 2 and all(b[key] > b["cycles"] for _, b in steps))
+    return out
+
+
 def _shard(args):
     combos, steps = args
     h = rb.harness()
     vb = VB()
     n = 0
+    cal: Dict[Tuple, Tuple] = {}
     for (p, hn, imr, timer) in combos:
         cfg = c12.make_cfg(p, hn, imr, timer)
         name = f"{p}|{hn}|imr={imr:02x}|t={int(timer[0])},{timer[1]},{timer[2]}"
@@ -79,8 +111,12 @@ def _shard(args):
         wit = {"machine": True, "cfg": [p, hn, imr, list(timer)], "steps": steps}
         po = M.run_py(cfg, hist)
         ro = M.run_rs(h, cfg, hist)
-        fp = monitor("python", name, cfg, po, vb, wit)
-        fr = monitor("rust", name, cfg, ro, vb, wit)
+        ck = (imr & 0x7F, timer)              # calibration: NOP loop, interrupts masked, same timers
+        if ck not in cal:
+            ccfg = c12.make_cfg("nop", "reti", imr & 0x7F, timer)
+            cal[ck] = (calibrate(M.run_py(ccfg, hist), ccfg), calibrate(M.run_rs(h, ccfg, hist), ccfg))
+        fp = monitor("python", name, cfg, po, vb, wit, cal[ck][0])
+        fr = monitor("rust", name, cfg, ro, vb, wit, cal[ck][1])
         n += 2 * steps
     return {"n": n, "configs": len(combos), "vb": vb}
 
